@@ -300,6 +300,71 @@ def variant_sources(body, l, depth=0):
     return out
 
 
+def bool_sources(body, l, depth=0):
+    """where the value of bool local l is made: [(True|False|None, block)] (constants, moves and negations followed)"""
+    if depth > 5 or 1 <= l <= body.arg_count:
+        return None
+    out = []
+    ds = [d for d in body.defs.get(l, []) if not (d[2] and not all(p["k"] == "deref" for p in d[2]))]
+    if not ds:
+        return None
+    for d in ds:
+        if d[3] != "rv":
+            out.append((None, d[0]))
+            continue
+        rv = d[4]
+        if rv["k"] == "use" and rv["op"]["k"] == "const" and rv["op"].get("ty") == "bool":
+            out.append((rv["op"].get("v") == "true", d[0]))
+        elif rv["k"] == "use" and rv["op"]["k"] in ("copy", "move") and not [p for p in rv["op"]["pl"]["p"] if p["k"] != "deref"]:
+            r = bool_sources(body, rv["op"]["pl"]["l"], depth + 1)
+            out += r if r is not None else [(None, d[0])]
+        elif rv["k"] == "un" and rv["op"] == "Not" and rv["a"]["k"] in ("copy", "move") and not [p for p in rv["a"]["pl"]["p"] if p["k"] != "deref"]:
+            r = bool_sources(body, rv["a"]["pl"]["l"], depth + 1)
+            out += [((not v) if v is not None else None, b) for v, b in r] if r is not None else [(None, d[0])]
+        elif rv["k"] == "use" and rv["op"]["k"] in ("copy", "move") and _payload_proj(rv["op"]["pl"]) is not None:
+            # `(w as Ready).0` where w is only ever built as that wrapper around a local (the result of a spliced `.await`)
+            V = _payload_proj(rv["op"]["pl"])
+            inner = []
+            okw = True
+            wds = [x for x in body.defs.get(rv["op"]["pl"]["l"], []) if not (x[2] and not all(p["k"] == "deref" for p in x[2]))]
+            for x in wds:
+                if x[3] == "rv" and x[4]["k"] == "agg" and x[4].get("variant") == V and x[4]["ops"] and x[4]["ops"][0]["k"] in ("copy", "move") \
+                        and not [p for p in x[4]["ops"][0]["pl"]["p"] if p["k"] != "deref"]:
+                    r = bool_sources(body, x[4]["ops"][0]["pl"]["l"], depth + 1)
+                    if r is None:
+                        okw = False
+                    else:
+                        inner += r
+                else:
+                    okw = False
+            out += inner if (okw and wds) else [(None, d[0])]
+        else:
+            out.append((None, d[0]))
+    return out
+
+
+def bool_sources_of_place(body, pl):
+    """bool_sources for a place: a plain local, or `(w as V).0` of a wrapper local only ever built as V(local)"""
+    pr = [p for p in pl["p"] if p["k"] != "deref"]
+    if not pr:
+        return bool_sources(body, pl["l"])
+    V = _payload_proj(pl)
+    if V is None:
+        return None
+    out = []
+    wds = [x for x in body.defs.get(pl["l"], []) if not (x[2] and not all(p["k"] == "deref" for p in x[2]))]
+    for x in wds:
+        if x[3] == "rv" and x[4]["k"] == "agg" and x[4].get("variant") == V and x[4]["ops"] and x[4]["ops"][0]["k"] in ("copy", "move") \
+                and not [p for p in x[4]["ops"][0]["pl"]["p"] if p["k"] != "deref"]:
+            r = bool_sources(body, x[4]["ops"][0]["pl"]["l"])
+            if r is None:
+                return None
+            out += r
+        else:
+            return None
+    return out or None
+
+
 def dominating_conditions(body, bb, _depth=0):
     """[(Cond, truth)] for bool/cmp/call switches S such that every path entry->bb takes exactly the
     true (or false) edge of S; for enum switches truth is the variant name (or ('not', [names])).
